@@ -196,6 +196,23 @@ def constant(y_true, y_pred):
     return 0.625
 
 
+class LoggedMean:
+    """mean(y_pred), undefined (NaN) on slices made only of `nan_rows`; logs the row ids (y_true) of every slice it is given."""
+
+    __name__ = "logged_mean"
+
+    def __init__(self, nan_rows=()):
+        self.nan_rows = frozenset(nan_rows)
+        self.calls = []
+
+    def __call__(self, y_true, y_pred):
+        ids = frozenset(int(v) for v in np.asarray(y_true).tolist())
+        self.calls.append(ids)
+        if ids and ids <= self.nan_rows:
+            return float("nan")
+        return float(np.mean(y_pred))
+
+
 def run_structure(ctx, rng, MetricFrame):
     from fairlearn.metrics import count
 
@@ -211,8 +228,14 @@ def run_structure(ctx, rng, MetricFrame):
         qs = [0.01, 0.99] if rng.random() < 0.5 else [0.99, 0.5, 0.01]
     rs = int(gen.pick(rng, SEEDS + [int(rng.integers(0, 2 ** 31))]))
     y_pred = (rng.permutation(n) * 1.0 + rng.random()).round(3).tolist()
-    form = gen.pick(rng, ["callable", "dict"])
-    metrics = varying if form == "callable" else {"count": count, "const": constant, "vary": varying}
+    form = gen.pick(rng, ["callable", "dict", "callable_undefined_for_a_group"])
+    logged = None
+    if form == "callable_undefined_for_a_group":
+        # a metric that is undefined (NaN) on one sensitive value's rows - like precision without positive predictions: the group
+        # still occurs in the resamples, so its row belongs in every by_group_ci entry
+        v0 = sf.iloc[0, 0]
+        logged = LoggedMean([i for i in range(n) if sf.iloc[i, 0] == v0] if rng.random() < 0.8 else [])
+    metrics = varying if form == "callable" else ({"count": count, "const": constant, "vary": varying} if form == "dict" else logged)
     wit = {"n": n, "sensitive": sf.to_dict("list"), "control": None if cf is None else cf.tolist(), "n_boot": nb, "quantiles": qs,
            "random_state": rs, "form": form, "y_pred": y_pred}
     ctx.mark(["structure", n, nsf, nctl, form, nb, len(qs), sorted(sf.value_counts().tolist())], n >= 2 and nb >= 2, sample=wit)
@@ -223,6 +246,23 @@ def run_structure(ctx, rng, MetricFrame):
     for what, (ci, point) in acc.items():
         if _compare_structure(ctx, what, ci, point, qs, wit):
             _check_monotone(ctx, what, ci, qs, wit)
+    if logged is not None:
+        point = mf.by_group
+        cols = [sf[c].tolist() for c in sf.columns]
+        ctl = None if cf is None else cf.tolist()
+        for key in point.index:
+            kt = key if isinstance(key, tuple) else (key,)
+            want = ([kt[0]] if ctl is not None else []), list(kt[1:] if ctl is not None else kt)
+            rows = frozenset(i for i in range(n) if (ctl is None or ctl[i] == want[0][0]) and all(cols[j][i] == want[1][j] for j in range(len(cols))))
+            # every slice made only of this cell's rows; the point estimate accounts for at most 2 of them (3 with control features),
+            # so 5 or more means the cell occurred in resamples (an under-approximation, which is the safe side)
+            seen = sum(1 for ids in logged.calls if ids and ids <= rows)
+            if rows and seen >= 5:
+                ctx.ev("resampled_group_rows_checked")
+                missing = [qs[qi] for qi, e in enumerate(mf.by_group_ci) if isinstance(e, (pd.Series, pd.DataFrame)) and key not in e.index]
+                ctx.check(not missing, "group_that_occurs_in_resamples_is_missing_from_by_group_ci", group=repr(key), slices_seen=seen, quantiles_missing=missing,
+                          metric_undefined_on_group=bool(rows <= logged.nan_rows), wit=wit)
+        kw["metrics"] = LoggedMean(logged.nan_rows)
     # reproducibility of every accessor
     mf2 = MetricFrame(**kw)
     for what, (ci2, _) in _accessors(mf2).items():
@@ -248,7 +288,7 @@ def run_structure(ctx, rng, MetricFrame):
                 d = np.asarray(mf.difference_ci(method=m)[qi]["const"], dtype=float).ravel()
                 ctx.check(all(isnan(v) or abs(v) <= 1e-12 for v in d), "constant_metric_difference_ci_not_zero", method=m, got=d.tolist(), wit=wit)
     # positive width for varying data (P[all resample means equal] is far below 1e-12 for n>=4 distinct values, n_boot>=30)
-    if wide and nb >= 30 and n >= 4 and nctl == 0:
+    if wide and nb >= 30 and n >= 4 and nctl == 0 and logged is None:
         lo, hi = mf.overall_ci[qs.index(0.01)], mf.overall_ci[qs.index(0.99)]
         if form == "dict":
             lo, hi = lo["vary"], hi["vary"]
